@@ -148,6 +148,11 @@ class SymArray(np.ndarray):
 
     # ------------------------------------------------------------------
     def __array_ufunc__(self, ufunc, method, *inputs, out=None, **kw):
+        # defer to operands that bring their own __array_ufunc__ (ODL elements), as ndarray does
+        for v in tuple(inputs) + tuple(out or ()):
+            if not isinstance(v, np.ndarray) and hasattr(type(v), '__array_ufunc__') and \
+                    type(v).__array_ufunc__ is not None and not is_symscalar(v):
+                return NotImplemented
         return array_ufunc(ufunc, method, inputs, out, kw)
 
     # ---- complex part views
@@ -451,6 +456,13 @@ def array_ufunc(ufunc, method, inputs, out, kw):
         res = r.view(SymArray)
         res._fake = FakeDtype(res_dt[0] if res_dt[0] is not None and res_dt[0].kind in 'fiu' else _guess(r))
         return res if res.ndim else res.view(np.ndarray)[()]
+
+    if name == 'divmod' and method == '__call__':
+        q = array_ufunc(np.floor_divide, '__call__', inputs, (out[0],) if out is not None and out[0] is not None else None,
+                        dict(kw))
+        r = array_ufunc(np.remainder, '__call__', inputs, (out[1],) if out is not None and out[1] is not None else None,
+                        dict(kw))
+        return q, r
 
     if name in _METHOD_UFUNCS and method == '__call__':
         ins = [_hygiene(np.array(v, dtype=object, copy=True) if isinstance(v, np.ndarray) else
